@@ -430,6 +430,29 @@ impl ModelSpec {
         format!("{:?}", self.family)
     }
 
+    /// largest association energy eps_AB/k in K (pure records, binary overrides; 2600 K as the
+    /// bound of the shipped group tables for group-contribution models); 0 without association
+    pub fn max_eps_ab(&self) -> f64 {
+        if !self.has_association() {
+            return 0.0;
+        }
+        let mut e: f64 = 0.0;
+        if matches!(self.family, Family::GcPcSaft | Family::GcPcSaftFunctional) {
+            e = 2600.0;
+        }
+        for p in &self.pure {
+            if let Some(v) = p["model_record"]["epsilon_k_ab"].as_f64() {
+                e = e.max(v);
+            }
+        }
+        for (_, _, b) in &self.binary {
+            if let Some(v) = b["epsilon_k_ab"].as_f64() {
+                e = e.max(v);
+            }
+        }
+        e
+    }
+
     pub fn has_association(&self) -> bool {
         self.pure.iter().any(|p| {
             let m = &p["model_record"];
@@ -945,7 +968,19 @@ pub struct StateSpec {
     pub x: Vec<f64>,
     /// total moles (mol)
     pub lambda: f64,
+    /// replay files of findings recorded before the association floor of the temperature existed
+    /// (never set by a generator)
+    #[serde(default, skip_serializing_if = "std::ops::Not::not")]
+    pub no_t_floor: bool,
 }
+
+/// Upper bound of eps_AB / T in generated states. Below T = eps_AB/25 the association strength
+/// exp(eps_AB/T) exceeds 7e10 and the monomer fractions (closed form and Newton solver alike) lose
+/// more digits than any tolerance of this suite can absorb; such temperatures (water below 100 K,
+/// an alcohol at 0.4 x the critical temperature of a hydrogen-rich mixture) are far below the
+/// triple point of the associating component and outside the range of the models. Every shipped
+/// associating record at 0.4 T_c of the pure component has eps_AB/T < 22.
+pub const MAX_EPS_AB_OVER_T: f64 = 25.0;
 
 pub fn gen_state(g: &mut Gen, n: usize) -> StateSpec {
     let tau = g.range(0.4, 3.0);
@@ -962,6 +997,7 @@ pub fn gen_state(g: &mut Gen, n: usize) -> StateSpec {
         f_eta,
         x: g.simplex(n, 1e-3),
         lambda: g.log_range(1e-3, 1e3),
+        no_t_floor: false,
     }
 }
 
@@ -994,6 +1030,9 @@ pub fn state_inputs(
     if spec.family == Family::EPcSaft && spec.source.starts_with("shipped") {
         // electrolyte solutions: the shipped permittivity correlations are fitted to 280-360 K
         t = 280.0 + (s.tau - 0.4) / 2.6 * 90.0;
+    }
+    if !s.no_t_floor {
+        t = t.max(spec.max_eps_ab() / MAX_EPS_AB_OVER_T);
     }
     let moles = Array1::from_vec(x.iter().map(|xi| xi * s.lambda).collect()) * MOL;
     let rho = if spec.family == Family::FmtFunctional {
